@@ -515,7 +515,7 @@ class PortalRun:
         global _CUR
         _patch_portal_exit()
         _CUR = self
-        sched = baton.begin(random.Random(f"baton:{seed}"), self.faults, "main", preempt=case.get("preempt", 0))
+        sched = baton.begin(random.Random(f"baton:{seed}"), self.faults, "main", preempt=case.get("preempt", 0), suppress=case.get("suppress", ()))
         simset.set_rng(random.Random(f"set:{seed}"), self.faults)
         sched.on_switch = lambda who, where, nxt: self.h.rec("preempted", who, where, "->", nxt)
         snap = {}
@@ -589,7 +589,8 @@ class PortalRun:
                     st["outcome"] in ("refused", "cancelled") for st in self.calls.values()),
                 "vtime": loop._vnow if loop else 0.0, "iters": loop.iterations if loop else 0,
                 "steps": self.h.seq + len(sched.log), "probes": self.probes, "cfg": [case["mode"]],
-                "history_text": self.h.text(120), "decisions": sched.decisions}
+                "history_text": self.h.text(120), "decisions": sched.decisions,
+                "switch_ordinals": list(sched.switch_ords)}
 
     def final_checks(self):
         for cid, st in self.calls.items():
@@ -621,6 +622,20 @@ def shrinks(case):
         c = copy.deepcopy(case)
         c["preempt"] = 0
         yield c
+        # schedule minimisation: drop, one at a time, the line pre-emptions that switched threads
+        try:
+            ords = PortalRun(copy.deepcopy(case)).execute().get("switch_ordinals", [])
+        except Exception:
+            ords = []
+        have = set(case.get("suppress", ()))
+        ords = [o for o in ords if o not in have]
+        size = len(ords)
+        while size >= 1:                      # ddmin-style: big chunks first, single switches last
+            for i in range(0, len(ords), size):
+                c = copy.deepcopy(case)
+                c["suppress"] = sorted(have | set(ords[i:i + size]))
+                yield c
+            size //= 2
     for i in range(len(case["callers"])):
         if len(case["callers"]) > 1:
             c = copy.deepcopy(case)
@@ -651,6 +666,8 @@ def shrinks(case):
 
 
 class PortalCheck:
+    shrink_runs = 3000      # races need many re-executions: program shrinking, derived schedule seeds, pre-emption ddmin
+    shrink_s = 150
     prop = "C15"
     engine = "threads-portal"
     level = "exploration"
